@@ -20,6 +20,11 @@
    close_over_xpath_expressions                   close_xp (fuel)
    exitStart                                      elab
 
+   Surface quantifiers may carry a user-written match expression (SQ ... (Some elems) ...: its variables count
+   as used names and are declared before the quantifier's own variable; enterQfdFormula's pre-registration is
+   NOT hooked to these forms) and numeric quantifiers (SInt; exitExistsInt's "already declared" SyntaxError is not
+   modelled, generated names are unique).  Predicate ids >= 100 are semantic predicates (count).
+
    SMT atoms are abstract: (negated?, payload id, variables by argument position).  Payload 0 is the
    literal `true` (negated: `false`).  Assumption tied by the harness for every generated atom:
    z3.simplify is the identity on the atom and on its negation (so `-(-A) == A`).
